@@ -3,3 +3,5 @@ import CC.Thm.C01
 #print axioms CC.Thm.C01.block_conforms
 #print axioms CC.Thm.C01.keystream_conforms
 #print axioms CC.Thm.C01.apply_exact
+#print axioms CC.Thm.C01.source_kernels_match
+#print axioms CC.Thm.C01.source_code_match
